@@ -122,6 +122,7 @@ namespace zoo {
       const ipr::Expr* as_expr = nullptr;
       const ipr::Type* as_type = nullptr;
       std::function<std::string(Ctx&)> observe;     // calls every accessor of the interface, returns a fingerprint
+      std::function<void(const ipr::Decl*)> set_implementation;     // classic expressions: the settable `implementation()` link
       bool generative = false;               // made by a make_* constructor that must yield a fresh node
       bool settable_done = false;
    };
